@@ -2682,3 +2682,13 @@ def h_range_contains(I, st, callee, target, args, ctx):
     c1 = I.cmp(st, "Ge", lin_of(st, x), lin_of(st, lo)).cond
     c2 = I.cmp(st, "Lt", lin_of(st, x), lin_of(st, hi)).cond
     return [(st, VBool(simplify(("and", c1, c2))))]
+
+
+@ext("core:Result<T, E>::or_else")
+def h_res_or_else(I, st, callee, target, args, ctx):
+    v, f = args
+    if isinstance(v, VAdt) and v.adt == RESULT:
+        if v.variant == 0:
+            return [(st, v)]
+        return I.apply_callable(st, f, [v.fields[0]], ctx)
+    raise Unanalysable("Result::or_else on %r" % (v,))
